@@ -2,7 +2,7 @@
 # confirm a seeded change in the seeding agent's own (already built) worktree:
 #  tests still pass with the change, demo fails with it and passes without it.
 # usage: tools/confirm_seed.sh C02   -> writes /verif/seeded/C02/{patch.diff,demo/,meta.json,confirm.json}
-ID=$1; W=${2:-}; SFX=""; [ "$W" = "2" ] && SFX=b; [ "$W" = "3" ] && SFX=c; [ "$W" = "4" ] && SFX=d; [ "$W" = "5" ] && SFX=e; [ "$W" = "6" ] && SFX=f; [ "$W" = "7" ] && SFX=g; WT=/tmp/seed${W}_$ID; OUT=/tmp/seedwork${W}_$ID/out; DST=/verif/seeded/$ID$SFX
+ID=$1; W=${2:-}; SFX=""; [ "$W" = "2" ] && SFX=b; [ "$W" = "3" ] && SFX=c; [ "$W" = "4" ] && SFX=d; [ "$W" = "5" ] && SFX=e; [ "$W" = "6" ] && SFX=f; [ "$W" = "7" ] && SFX=g; [ "$W" = "8" ] && SFX=h; [ "$W" = "9" ] && SFX=i; WT=/tmp/seed${W}_$ID; OUT=/tmp/seedwork${W}_$ID/out; DST=/verif/seeded/$ID$SFX
 set -u
 [ -f $OUT/patch.diff ] || { echo "no patch"; exit 2; }
 cd $WT || exit 2
